@@ -24,6 +24,13 @@ MATRIX_NAMES = ('A', 'W', 'CIJ', 'G', 'Gw', 'R', 'adj', 'adjacency', 'D', 'L', '
 VECTOR_LABEL_NAMES = ('ci', 'kci', 'cx', 'cy', 'c', 'Ci')
 
 
+OPTION_VALUES = {
+    'transform': (None, 'inv', 'log'), 'degree': ('undirected', 'in', 'out'), 'coef_type': ('default', 'zhang', 'constantini'),
+    'centrality_type': ('degree', 'betweenness'), 'flag': (0, 1, 2, 3), 'qtype': ('sta', 'pos', 'smp', 'gja', 'neg'), 'gamma': (1, 0.8, 1.3),
+    'has_memory': (False, True), 'klevel': (None, 2, 3), 'tail': ('both', 'left', 'right'), 'type_clustering': ('single', 'complete'),
+}
+
+
 def public_functions():
     out = []
     for name in sorted(dir(bct)):
@@ -109,6 +116,12 @@ def synth(fname, rnd):
         elif pname == 'copy':
             kwargs['copy'] = rnd.random() < 0.5
             continue
+        elif has_default and isinstance(par.default, bool) and pname != 'verbose':
+            kwargs[pname] = rnd.random() < 0.5  # option flags select code paths with their own writes
+            continue
+        elif has_default and pname in OPTION_VALUES:
+            kwargs[pname] = rnd.choice(OPTION_VALUES[pname])
+            continue
         elif has_default:
             continue
         elif pname in ('thr',):
@@ -168,8 +181,8 @@ OVERRIDES = {
     'grid_communities': lambda r, n: ([labels(r, n)], {}),
     'partition_distance': lambda r, n: ([labels(r, n), labels(r, n)], {}),
     'consensus_und': lambda r, n: (lambda D: ([(D + D.T) / 2, 0.3], {'reps': 2}))(matrix(r, n, False, False, False, False) / 6.0),
-    'charpath': lambda r, n: ([matrix(r, n, False, True, False, True, dens=1.0)], {}),
-    'rout_efficiency': lambda r, n: ([matrix(r, n, False, True, False, True, dens=0.8)], {}),
+    'charpath': lambda r, n: ([_distmat(r, n)], {'include_diagonal': r.random() < 0.5, 'include_infinite': r.random() < 0.5}),
+    'rout_efficiency': lambda r, n: ([_distmat(r, n)], {'transform': r.choice((None, 'inv'))}),
     'cycprob': lambda r, n: ([np.round(np.array([[[r.random() for _ in range(3)] for _ in range(n)] for _ in range(n)]) * 3)], {}),
     'find_motif34': lambda r, n: ([r.randint(1, 13), 3], {}),
     'findpaths': lambda r, n: ([matrix(r, n, False, True, True, False, dens=0.3), 2, np.array([0, 1])], {}),
@@ -210,6 +223,14 @@ OVERRIDES = {
     'null_model_dir_sign': lambda r, n: ([matrix(r, n, True, True, False, True, dens=0.8)], {'bin_swaps': 1, 'wei_freq': r.choice((0.3, 1))}),
     'threshold_proportional': lambda r, n: ([np.abs(matrix(r, n, False, r.random() < 0.5, False, True)), r.choice((0.2, 0.5, 1.0))], {'copy': r.random() < 0.5}),
 }
+
+
+def _distmat(rnd, n):
+    D = matrix(rnd, n, False, True, False, True, dens=rnd.choice((0.6, 1.0)))
+    D[D == 0] = np.inf  # unreachable pairs
+    if rnd.random() < 0.5:
+        np.fill_diagonal(D, 0)
+    return D
 
 
 def _ring(n, rnd):
